@@ -376,6 +376,14 @@ impl Builder {
     }
 }
 
+#[cfg(feature = "verif")]
+impl Builder {
+    /// Verification hook (read-only): the buffer written so far and the explicit length in force.
+    pub fn verif_state(&self) -> (Option<&[u8]>, Option<u16>) {
+        (self.header.as_deref(), self.length)
+    }
+}
+
 #[cfg(test)]
 mod tests {
     use super::*;
